@@ -654,6 +654,46 @@ pub struct C06State {
     pub probes: u64,
     pub fresh_checks: u64,
     pub idem_checks: u64,
+    /// "interest was really charged" evaluations (independent lower bound on the liability share value's growth)
+    pub charged_checks: u64,
+    pub charged_zero_borrow_limit: u64,
+    pub charged_skipped_small: u64,
+}
+
+/// Independent LOWER bound of the borrow rate (per year, as a fraction) the bank must charge at utilisation `u`, written
+/// from the statement's description of the curve, not from the program: for the seven-point curve the exact piecewise
+/// linear interpolation through (0, zero rate), the configured points (utilisation > 0, ascending) and (1, hundred rate),
+/// rates as u32 out of 1000 %, utilisations as u32 out of 100 %, lowered by 2^-12 (the program truncates knots by < 1 ulp
+/// in x and <= 11 ulps in y and the utilisation by a few ulps; the steepest admissible segment has slope 10 * 2^32, so
+/// the program's base rate differs from the exact curve by less than 10 * 2^32 * 2^-48 * (1 + 2^-15) < 2^-12); for the
+/// legacy three-point curve nothing is assumed about the base rate (bound 0). The fixed insurance and group fees are
+/// charged on top of any base rate; rate-proportional fees and the program fee only ADD to it (fees are never negative),
+/// so leaving them out keeps the bound a lower bound.
+fn borrow_rate_lower_bound(b: &marginfi_type_crate::types::Bank, u: &Q) -> Q {
+    let c = &b.config.interest_rate_config;
+    let fixed = q_max(q_zero(), q_w(c.insurance_fee_fixed_apr)) + q_max(q_zero(), q_w(c.protocol_fixed_fee_apr));
+    if c.curve_type != marginfi_type_crate::types::INTEREST_CURVE_SEVEN_POINT {
+        return fixed;
+    }
+    let m = q_int(u32::MAX);
+    let rate = |r: u32| q_int(r) * q_int(10) / &m;
+    let mut knots: Vec<(Q, Q)> = vec![(q_zero(), rate(c.zero_util_rate))];
+    for p in c.points.iter() {
+        if p.util != 0 {
+            knots.push((q_int(p.util) / &m, rate(p.rate)));
+        }
+    }
+    knots.push((q_one(), rate(c.hundred_util_rate)));
+    let u = q_min(q_one(), q_max(q_zero(), u.clone()));
+    let mut base = knots.last().unwrap().1.clone();
+    for w in knots.windows(2) {
+        let ((x0, y0), (x1, y1)) = (&w[0], &w[1]);
+        if &u <= x1 {
+            base = if x1 == x0 { y0.clone().min(y1.clone()) } else { y0 + (y1 - y0) * (&u - x0) / (x1 - x0) };
+            break;
+        }
+    }
+    q_max(q_zero(), base - q_ratio(1, 4096)) + fixed
 }
 
 fn bank_core_eq(a: &BankSnap, b: &BankSnap) -> Option<&'static str> {
@@ -723,6 +763,34 @@ pub fn c06_step(st: &mut C06State, pre: &StoreSnap, post: &StoreSnap, step: &Ste
         }
         if b0.last_update < post.now && !b0.l_shares.is_zero() && !b0.a_shares.is_zero() {
             stale_any = true;
+        }
+        // interest was really charged (independent of the program's own accrual code, which the differential probe below
+        // shares): the instruction transacted in the bank at `now`, the bank was last brought up to date at t0 < now with
+        // at least one native unit of deposits and of debt, so the liability share value must have grown by at least
+        // lsv * (lower bound of the borrow rate at the utilisation of the pre-state) * dt / year.
+        if b0.last_update < post.now && b0.liabs() >= q_one() && b0.assets() >= q_one() {
+            let dt = q_int(post.now - b0.last_update);
+            let u = b0.liabs() / b0.assets();
+            let r_lo = borrow_rate_lower_bound(&b0.raw, &u);
+            let want = &b0.lsv * &r_lo * &dt / q_int(31_536_000u64);
+            if want >= q_int(256) * ulp() {
+                st.charged_checks += 1;
+                if b0.borrow_limit == 0 {
+                    st.charged_zero_borrow_limit += 1;
+                }
+                let got = &b1.lsv - &b0.lsv;
+                if got < &want * q_ratio(999_999u64, 1_000_000u64) - q_int(8) * ulp() {
+                    out.push(finding(
+                        "accrual:interest-not-charged",
+                        format!(
+                            "op#{} {}: bank {} is stamped up to date (last_update {} -> {}) but its liability share value grew by {} over {} s at utilisation {}, less than the {} that the configured curve and fixed fees charge at least (borrow limit {}, curve type {})",
+                            step.index, step.op.name(), k, b0.last_update, b1.last_update, q_str(&got), post.now - b0.last_update, q_str(&u), q_str(&want), b0.borrow_limit, b0.raw.config.interest_rate_config.curve_type
+                        ),
+                    ));
+                }
+            } else {
+                st.charged_skipped_small += 1;
+            }
         }
         // monotone share values over any step
         if b1.lsv < b0.lsv {
